@@ -148,6 +148,7 @@ func cmdWorker(args []string) {
 	}
 	debug.SetMaxStack(mb << 20)
 	sim.Thorough = *tier == "thorough"
+	sim.OwnGC(2 << 30)
 
 	var jf *os.File
 	if *journal != "" {
@@ -196,6 +197,7 @@ func cmdWorker(args []string) {
 			defer r.Close()
 			p.Exec(r)
 		}()
+		sim.GCBetweenRuns()
 		wo.Runs++
 		wo.Steps += int64(r.Steps)
 		wo.Switches += int64(r.Switches)
@@ -758,6 +760,7 @@ func cmdReplay(args []string) {
 	if p == nil {
 		die2("unknown property %s", v.Property)
 	}
+	sim.OwnGC(2 << 30)
 	sim.Thorough = v.Tier == "thorough"
 	if v.Crash {
 		if os.Getenv("VERIF_REPLAY_CHILD") == "1" {
@@ -766,6 +769,7 @@ func cmdReplay(args []string) {
 				mb = 64
 			}
 			debug.SetMaxStack(mb << 20)
+			sim.OwnGC(2 << 30)
 			r := sim.NewRun(v.RunSeed)
 			p.Exec(r)
 			r.Close()
@@ -855,6 +859,7 @@ func cmdSelftest(args []string) {
 		mb = 64
 	}
 	debug.SetMaxStack(mb << 20)
+	sim.OwnGC(2 << 30)
 	for i := *from; i < *n; i++ {
 		rs := sim.Mix(*seed, p.ID, uint64(i))
 		r := sim.NewRun(rs)
@@ -863,6 +868,7 @@ func cmdSelftest(args []string) {
 			defer r.Close()
 			p.Exec(r)
 		}()
+		sim.GCBetweenRuns()
 		if i == *dump {
 			fmt.Println(r.Trace)
 			for _, l := range r.Log {
